@@ -100,14 +100,14 @@ def oracle(ck, extended):
         if r < 0.25: oo -= 6
         elif r < 0.5: rr -= 6
         elif r < 0.6: oo -= 6; rr -= 6
-        oracle_layout(ck, filt, gfilt, x, J, oo, rr)
+        rt.guard(ck, oracle_layout, ck, filt, gfilt, x, J, oo, rr)
     for J in (1, 2, 3) if q else (1, 2, 3, 4):
         filt = dt_filters(rng)
         x = gen.int_tensor(rng, (1, 2, rng.randint(2, 20), rng.randint(2, 20)), 3)
         masks = [(a, b) for a in range(2 ** J) for b in range(2 ** J)]
         for (skm, inm) in (masks if (not q or J < 3) else rng.sample(masks, 16)):
-            oracle_masks(ck, filt, x, J, skm, inm)
-        oracle_prefix(ck, filt, x, J)
+            rt.guard(ck, oracle_masks, ck, filt, x, J, skm, inm)
+        rt.guard(ck, oracle_prefix, ck, filt, x, J)
 
 
 def run(ck):
